@@ -534,7 +534,20 @@ class LDA:
                 e = ext_of(zl(b) - zl(a))
                 r._ext[d] = e
                 r._coords[d] = LCoord(d, CoordId("block", self._coords[d].cid, str(a), str(b)), e)
-                r.val = ("block", d, str(a), str(b), r.val)
+                exts = ctx().notes.get("concat_exts", {}).get(r.val) if isinstance(r.val, tuple) and r.val[:2] == ("concat", d) else None
+                item = None
+                if exts is not None:
+                    # which concatenated item is [a, b)?  (positions are cumulative extents)
+                    lo = z3.IntVal(0)
+                    for j, ez in enumerate(exts):
+                        if decide(zl(a) == lo) and decide(zl(b) == lo + ez):
+                            item = j
+                            break
+                        lo = lo + ez
+                if item is not None:
+                    r.val = ("block-item", item, r.val[2 + item])
+                else:
+                    r.val = ("block", d, str(a), str(b), r.val)
             else:
                 raise Unsupported("sel value " + type(v).__name__)
         return r
@@ -661,7 +674,9 @@ class XRL:
                     elif ca is not None and cb is not None and ca.cid.key != cb.cid.key and positional:
                         # same labels in a possibly different order: only label-based alignment keeps values on their labels
                         ctx().events.append(("positional-join", f"concat along {dim} without alignment: {d} is {ca.cid} vs {cb.cid}"))
-        return a._new(("concat", dim) + tuple(o.val for o in objs), None, ext, co, any(o.lazy for o in objs))
+        val = ("concat", dim) + tuple(o.val for o in objs)
+        ctx().notes.setdefault("concat_exts", {})[val] = [o._ext[dim].z for o in objs]
+        return a._new(val, None, ext, co, any(o.lazy for o in objs))
 
     def corr(self, a, b, dim=None, **kw):
         """xr.corr: Pearson correlation (both arguments centred along dim) over the broadcast of the other dims"""
